@@ -29,7 +29,7 @@ VARIANTS = [
          [(EM, "        if param.name in self.arguments:\n            arg = self.arguments[param.name]\n", "        arg = self.arguments.get(param.name) or param\n        if arg is not param:\n")],
          ("*", "GateReplacer.visit_Parameter:truthiness"), ("C04",)),
     fire("fz-override-value-truthy",
-         [(FL, "        if const.name in self.override_dict:\n            # Like a declared value, 4.0 stands for the integer 4\n            return circuitbuilder.as_integer(self.override_dict[const.name])", "        if self.override_dict.get(const.name):\n            return self.override_dict[const.name]")],
+         [(FL, "        if const.name in self.override_dict:\n            value = self.override_dict[const.name]\n            if isinstance(value, float) and not math.isfinite(value):\n                # Infinity and NaN cannot be written in Jaqal\n                raise JaqalError(f\"Cannot override {const.name} with {value}\")\n            # Like a declared value, 4.0 stands for the integer 4\n            return circuitbuilder.as_integer(value)", "        if self.override_dict.get(const.name):\n            return self.override_dict[const.name]")],
          ("*", "LetFiller.resolve_constant:truthiness"), ("C05",)),
     fire("fz-let-index-truthy",
          [(FL, "            new_index = qubit.alias_index\n", "            new_index = qubit.alias_index or None\n", 0)],
